@@ -10,6 +10,7 @@ import (
 	"encoding/json"
 	"fmt"
 	"reflect"
+	"sort"
 	"strconv"
 	"strings"
 
@@ -66,6 +67,7 @@ type tbl struct {
 	ternOp  int
 	sepOp   int
 	reenter int
+	modelN  int // operators with an id < modelN are known to the regenerated table
 }
 
 func parseTable(s string) (*tbl, error) {
@@ -116,10 +118,76 @@ func parseTable(s string) (*tbl, error) {
 			t.sepOp, _ = strconv.Atoi(q[1])
 		}
 	}
+	t.modelN = len(t.names)
+	t.completeFromSpec()
 	if len(t.names) == 0 || len(t.binOps) == 0 {
 		return nil, fmt.Errorf("empty table")
 	}
 	return t, nil
+}
+
+// completeFromSpec makes the operator universe that of the property statement, whatever the
+// regenerated table contains (a level the translator no longer recognises must still be explored).
+func (t *tbl) completeFromSpec() {
+	idx := map[string]int{}
+	for i, n := range t.names {
+		idx[n] = i
+	}
+	id := func(n string) int {
+		if i, ok := idx[n]; ok {
+			return i
+		}
+		t.names = append(t.names, n)
+		idx[n] = len(t.names) - 1
+		return idx[n]
+	}
+	addTo := func(xs *[]int, n string) {
+		i := id(n)
+		if !contains(*xs, i) {
+			*xs = append(*xs, i)
+		}
+	}
+	for n := range specLevel {
+		if n != "TERNARY" {
+			addTo(&t.binOps, n)
+		}
+	}
+	for _, n := range []string{"ASSIGN", "ADD_EQ", "SUB_EQ", "MUL_EQ", "QUO_EQ", "REM_EQ", "CONCAT_EQ", "NULL_COALESCE_ASSIGN"} {
+		i := id(n)
+		// an assignment operator the table files under an ordinary binary level still needs a variable on its left
+		if !contains(t.asgOps, i) {
+			t.asgOps = append(t.asgOps, i)
+		}
+		for k, o := range t.binOps {
+			if o == i {
+				t.binOps = append(t.binOps[:k], t.binOps[k+1:]...)
+				break
+			}
+		}
+	}
+	for _, n := range []string{"SUB", "NOT", "BIT_NOT", "CAST"} {
+		addTo(&t.preOps, n)
+	}
+	if t.ternOp < 0 {
+		t.ternOp = id("TERNARY")
+	}
+	id("COLON")
+	sort.Ints(t.binOps)
+	sort.Ints(t.asgOps)
+	sort.Ints(t.preOps)
+}
+
+// inModel: every operator of the tree is known to the regenerated table
+func (t *tbl) inModel(e *Expr) bool {
+	if e.K != "a" && e.O >= t.modelN {
+		return false
+	}
+	for _, ch := range e.C {
+		if !t.inModel(ch) {
+			return false
+		}
+	}
+	return true
 }
 
 // operator token name → token type (for its source literal)
@@ -433,20 +501,26 @@ func Run(c *vh.Ctx) {
 	check := func(e *Expr) {
 		cs := Case{Tree: e}
 		se := e.sexpr()
-		mn, e1 := m.Ask("min " + se)
-		fl, e2 := m.Ask("full " + se)
-		if e1 != nil || e2 != nil || mn == "bad-op" || fl == "bad-op" {
-			c.Mismatch(cs, "", mn+" / "+fl, "model cannot print the tree")
-			return
+		known := t.inModel(e)
+		if known {
+			mn, e1 := m.Ask("min " + se)
+			fl, e2 := m.Ask("full " + se)
+			if e1 != nil || e2 != nil || mn == "bad-op" || fl == "bad-op" {
+				c.Mismatch(cs, "", mn+" / "+fl, "model cannot print the tree")
+				known = false
+			} else {
+				cs.Min, cs.Full = t.render(mn), t.render(fl)
+				// model round trip (proved; cheap sanity)
+				if back, err := m.Ask("parse " + mn); err == nil && back != se {
+					c.Mismatch(cs, "", back, "model: parse (printMin e) ≠ e — contradicts the theorem; machinery error")
+				}
+			}
+		} else {
+			c.Hit("tree-outside-regenerated-table")
 		}
-		cs.Min, cs.Full = t.render(mn), t.render(fl)
 		c.Eval(se, e.depth() >= 3)
 		c.Hit(fmt.Sprintf("depth=%d", e.depth()))
 		c.SampleSome(map[string]any{"tree": se, "min": cs.Min, "full": cs.Full}, 499)
-		// model round trip (proved; cheap sanity)
-		if back, err := m.Ask("parse " + mn); err == nil && back != se {
-			c.Mismatch(cs, "", back, "model: parse (printMin e) ≠ e — contradicts the theorem; machinery error")
-		}
 		// 1. the property itself, judged without the model: the text printed by the STATEMENT's table
 		//    (Go printer above) and the fully parenthesised text evaluate alike
 		specMin, full := t.specPrint(e, 0, nil), t.fullPrint(e)
@@ -460,7 +534,7 @@ func Run(c *vh.Ctx) {
 		}
 		c.Hit("eval:" + o1.Kind)
 		// the model's own minimal text must evaluate alike as well
-		if cs.Min != specMin {
+		if known && cs.Min != specMin {
 			o3 := env.RunSource(script(cs.Min), "/verif-c04.zy")
 			if o3.String() != o2.String() {
 				c.Violation(sigOf(t, e), fmt.Sprintf("`%s` evaluates to %q but fully parenthesised `%s` to %q", cs.Min, short(o3.String()), full, short(o2.String())), cs)
@@ -468,6 +542,9 @@ func Run(c *vh.Ctx) {
 			c.Hit("min-differs-from-spec-min")
 		}
 		// 2. correspondence: origami's AST of the minimal text = the tree
+		if !known {
+			return
+		}
 		want, err := t.build(e)
 		if err != nil {
 			c.Hit("expected-ast:constructor-panics")
